@@ -36,6 +36,7 @@ class Acc:
         self.samples = []
         self.violations = {}  # key -> {"count": n, "what": str, "witnesses": [..]}
         self.counters = {}
+        self.sets = {}
         self._rng = random.Random(seed)
         self._seen_samples = 0
 
@@ -47,6 +48,10 @@ class Acc:
 
     def count(self, name, n=1):
         self.counters[name] = self.counters.get(name, 0) + n
+
+    def distinct(self, name, value):
+        """named set of observed things (states, interleaving signatures ...); unions across shards"""
+        self.sets.setdefault(name, set()).add(value if isinstance(value, str) else h(value))
 
     def sample(self, obj):
         self._seen_samples += 1
@@ -70,6 +75,7 @@ class Acc:
             "samples": self.samples,
             "violations": self.violations,
             "counters": self.counters,
+            "sets": {k: sorted(v) for k, v in self.sets.items()},
         }
 
 
@@ -195,6 +201,7 @@ def main(argv):
     samples = []
     counters = {}
     violations = {}
+    sets = {}
     errors = []
     for spec, res, err in results:
         if res is None:
@@ -207,6 +214,8 @@ def main(argv):
                 samples.append(s)
         for k, v in res["counters"].items():
             counters[k] = counters.get(k, 0) + v
+        for k, v in res.get("sets", {}).items():
+            sets.setdefault(k, set()).update(v)
         for k, v in res["violations"].items():
             a = violations.setdefault(k, {"count": 0, "what": v["what"], "witnesses": []})
             a["count"] += v["count"]
@@ -229,7 +238,9 @@ def main(argv):
             lines.append("NOTE: property=%s listed finding not reproduced this run: key=%s" % (prop, f["key"]))
 
     floors = getattr(mod, "FLOORS", {}).get(tier, {}) if not replay else {}
-    short = {k: (counters.get(k, 0), m) for k, m in floors.items() if counters.get(k, 0) < m}
+    observed = dict(counters)
+    observed.update({"distinct:" + k: len(v) for k, v in sets.items()})
+    short = {k: (observed.get(k, 0), m) for k, m in floors.items() if observed.get(k, 0) < m}
     if not replay and evaluations == 0:
         short["evaluations"] = (0, 1)
 
@@ -269,6 +280,7 @@ def main(argv):
                 "rule": mod.RULE,
                 "samples": samples,
                 "monitor_counters": counters,
+                "distinct_observed": {k: len(v) for k, v in sets.items()},
                 "shards": len(specs),
                 "shard_errors": errors[:5],
                 "known_findings_observed": {k: v["count"] for k, v in known.items()},
